@@ -33,8 +33,10 @@ TRUSTED = ["Coq 8.16.1 kernel and vm_compute", "harness/props/c18.py (generators
            "no axioms (Print Assumptions: closed)"]
 ASSUMPTIONS = ["a resample is a list of n row positions < n (checked on every logged resample)",
                "metric functions are deterministic functions of the rows they receive",
-               "metric cells are finite or NaN for the monotonicity theorem (infinite cells: modelled, compared, "
-               "not covered by the theorem)"]
+               "metric cells are finite or NaN for the monotonicity theorem; when a per-resample cell is infinite "
+               "(x/0 of a metric taking zero or negative values) numpy's interpolation yields NaN at some quantiles "
+               "only: such outputs are modelled (IEEE _lerp) and compared, except that non-finite cells are "
+               "compared for shape only (float rounding of the virtual index decides between NaN and inf)"]
 RULE = ("cases: MetricFrame(metrics=recording callable | dict of 1..3, y_true=row ids (or ids in a sample param), "
         "1..2 sensitive and 0..2 control features, n in 4..14, n_boot in 1..40, 1..4 ci_quantiles in (0,1) "
         "(unsorted, duplicates, wide pairs), integer random_state), run twice; non-trivial = at least 2 resamples, "
